@@ -75,6 +75,9 @@ def main():
     ap.add_argument("--keep-name")
     ap.add_argument("--skip-tests", action="store_true")
     ap.add_argument("--tier", default="quick")
+    ap.add_argument("--isolated", action="store_true",
+                    help="run the checks of THIS copy of /verif against a private worktree (VERIF_REPO) instead of "
+                         "patching /repo: several confirmations can then run side by side, one per copy of /verif")
     a = ap.parse_args()
     mdir = os.path.abspath(a.mdir)
     meta = json.load(open(os.path.join(mdir, "meta.json")))
@@ -123,27 +126,38 @@ def main():
     res["confirmed"] = (res.get("demo_clean_rc") == 0 and res.get("demo_mutated_rc") not in (0, None)
                         and all(v == "pass" for v in res["unit_tests_with_mutation"].values()))
 
-    # ---- 2. run the checks against the mutated /repo
-    assert sh(["git", "-C", REPO, "status", "--porcelain", "--untracked-files=no"]).stdout.strip() == "", "/repo not clean"
-    assert sh(["git", "-C", REPO, "apply", patch]).returncode == 0
+    # ---- 2. run the checks against the mutated /repo (or, --isolated, against a private worktree)
+    target, env = REPO, dict(os.environ)
+    iso = None
+    if a.isolated:
+        iso = tempfile.mkdtemp(prefix="seediso.")
+        target = os.path.join(iso, "repo")
+        assert sh(["git", "-C", REPO, "worktree", "add", "--detach", target, "HEAD"]).returncode == 0
+        env["VERIF_REPO"] = target
+        res["isolated"] = "checks of a private copy of /verif run with VERIF_REPO=<scratch worktree>"
+    assert sh(["git", "-C", target, "status", "--porcelain", "--untracked-files=no"]).stdout.strip() == "", "target not clean"
+    assert sh(["git", "-C", target, "apply", patch]).returncode == 0
     det = {}
     try:
         for c in checks:
             t0 = time.time()
-            p = sh(["python3", "check.py", c, "--tier", a.tier], cwd=ROOT)
+            p = sh(["python3", "check.py", c, "--tier", a.tier], cwd=ROOT, env=env)
             vio = [l for l in p.stdout.splitlines() if l.startswith("VIOLATION")]
             notes = [l.strip() for l in p.stderr.splitlines() if "violation:" in l or "corr:" in l or "proof:" in l][:4]
             det[c] = {"exit": p.returncode, "violations": vio[:3], "n_violations": len(vio), "notes": [n[:300] for n in notes],
                       "wall_s": round(time.time() - t0, 1)}
     finally:
-        sh(["git", "-C", REPO, "checkout", "--", "."])
+        sh(["git", "-C", target, "checkout", "--", "."])
     res["checks_on_mutated_tree"] = det
     res["detected"] = any(d["exit"] != 0 for d in det.values())
     res["detected_with_failing_input"] = any(d["exit"] != 0 and any("no-failing-input-found" not in v for v in d["violations"]) for d in det.values())
     clean = {}
     for c in checks:
-        p = sh(["python3", "check.py", c, "--tier", "quick"], cwd=ROOT)
+        p = sh(["python3", "check.py", c, "--tier", "quick"], cwd=ROOT, env=env)
         clean[c] = p.returncode
+    if iso:
+        sh(["git", "-C", REPO, "worktree", "remove", "--force", target])
+        shutil.rmtree(iso, ignore_errors=True)
     res["checks_on_clean_tree_after_revert"] = clean
 
     # ---- 3. store
